@@ -56,11 +56,13 @@ def run(tier, seed, replay):
     run.rule = ("for every enumerated tile set x {versatiles, pmtiles} x {none, gzip, brotli}: the real writer runs against a recording "
                 "DataWriter; every prefix of the recorded operation sequence and byte cuts inside each operation (all bytes of writes "
                 "<= 140 bytes, i.e. headers and small indexes; first/third/middle/last bytes of larger ones) are materialised and opened "
-                "by the real reader; TLC judges CutSafe and compares with the abstract commit-order model. non-trivial = cut strictly "
+                "by the real reader; every 8th case is also written through the REAL file writer over an existing complete container of "
+                "another tile set and interrupted after every operation prefix; TLC judges CutSafe and compares with the abstract "
+                "commit-order model. non-trivial = cut strictly "
                 "inside the operation sequence (distinct (case, k, b))")
     run.exhaustive = False
     run.extra = {"cases": s["cases"], "cuts": s["cuts"], "cuts_opened_as_view": s["views"], "cuts_failed_to_open": s["fails"],
-                 "cuts_panicked_on_open": s["panics"],
+                 "cuts_panicked_on_open": s["panics"], "overwrite_cuts": s.get("overwrite_cuts", 0),
                  "abstract_model_disagreements": len(v.tagged.get("MODEL_DISAGREES", [])),
                  "design_unsafe_op_orders": len(v.tagged.get("DESIGN_UNSAFE", []))}
     run.assumptions = ["unwritten regions read as zeros / lie beyond the end of file; writes of one operation land as a prefix",
